@@ -278,6 +278,103 @@ pub fn run(report: &Report, thorough: bool) -> Evidence {
         parts.insert("P5_splitter_alphabet_candidate_clause".into(), json!({"alphabet": alpha.iter().collect::<String>(), "max_len": n, "suggestions_checked": c, "key_events": e}));
     }
 
+    // P6: every published key (incl. the number pad) once after three short texts, suggestions off and on:
+    // the character it stands for is the harness's own key table
+    if crate::par::part_enabled("P6") {
+        let before = (checked.load(Ordering::Relaxed), events.load(Ordering::Relaxed));
+        let cfgs = [off(false, true, false), on(true, true)];
+        par_for(
+            cfgs.len() * 3,
+            1,
+            |w| scratch_xdg(&format!("c03-P6-{}", w)),
+            |xdg, idx| {
+                let mut o = cfgs[idx % 2].clone();
+                o.xdg = xdg.clone();
+                let pre = ["", "a", "(k"][idx / 2];
+                let mut ctx = Ctx::new(&o).expect("ctx");
+                for k in crate::keys::KEYS {
+                    for m in [0u8, 1, 2] {
+                        let _ = ctx.apply(&Ev::Finish);
+                        let mut evs: Vec<Ev> = pre.chars().map(Ev::ch).collect();
+                        for e in &evs {
+                            let _ = ctx.apply(e);
+                        }
+                        let ev = Ev::Key { code: k.code, m, sel: 0 };
+                        evs.push(ev.clone());
+                        events.fetch_add(1, Ordering::Relaxed);
+                        match ctx.apply(&ev) {
+                            Ok(crate::drv::Out::Sugg(r)) => {
+                                checked.fetch_add(1, Ordering::Relaxed);
+                                let text = format!("{}{}", pre, k.ch.map(|c| c.to_string()).unwrap_or_default());
+                                let ok = if o.psugg {
+                                    let (p, w, t) = split_ref(&text, false);
+                                    let exp = avro.tr_parts(&p, &w, &t);
+                                    text.is_empty() || (r.text() == text && r.items().iter().any(|c| uncurl(c) == uncurl(&exp)))
+                                } else {
+                                    let (p, w, t) = split_simple(&text);
+                                    r.text() == avro.tr_parts(p, w, t)
+                                };
+                                if !ok {
+                                    report.add(
+                                        Violation::new("C03", "wrong-key-character", &format!("wrong-key-character:{}", k.name))
+                                            .opts(&ctx.opts)
+                                            .events(&evs)
+                                            .feat("key", k.name)
+                                            .detail(format!("after {:?} the key {} (character {:?}) gave {}", pre, k.name, k.ch, r.to_json())),
+                                    );
+                                }
+                            }
+                            Ok(_) => {}
+                            Err(f) => {
+                                report.add(fail_violation("C03", &f, &ctx.opts, &evs));
+                            }
+                        }
+                    }
+                }
+            },
+            |_| (),
+        );
+        parts.insert("P6_every_published_key".into(), json!({"keys": crate::keys::KEYS.len(), "modifiers": 3, "states": 3, "suggestions_checked": checked.load(Ordering::Relaxed) - before.0, "key_events": events.load(Ordering::Relaxed) - before.1}));
+    }
+    // P7: history dependence with suggestions off: mixed alphabet (letters, brackets, full stop, colon,
+    // back-tick) depth-first with backspaces, started after an earlier word in the same context
+    if crate::par::part_enabled("P7") {
+        let alpha: Vec<char> = "ak(.:`".chars().collect();
+        let n = if thorough { 6 } else { 5 };
+        let before = (checked.load(Ordering::Relaxed), events.load(Ordering::Relaxed));
+        let earlier = ["", "a", "(ka)", "kk."];
+        let firsts: Vec<char> = alpha.clone();
+        par_for(
+            earlier.len() * firsts.len(),
+            1,
+            |w| scratch_xdg(&format!("c03-P7-{}", w)),
+            |xdg, idx| {
+                let mut o = off(false, true, false);
+                o.xdg = xdg.clone();
+                let mut ctx = Ctx::new(&o).expect("ctx");
+                ctx.with_pre = true;
+                // an earlier word, ended by finish (the conversion buffers are reused between words)
+                for c in earlier[idx / firsts.len()].chars() {
+                    let _ = ctx.ch(c);
+                }
+                let _ = ctx.apply(&Ev::Finish);
+                let mut d = Dfs { ctx, avro: &avro, report, alphabet: &alpha, checked: 0, events: 0, text: String::new(), lists: false, samples: &samples, part: "P7" };
+                let first = firsts[idx % firsts.len()];
+                // walk only the subtree of `first`, but including the return to it and to the empty text
+                d.events += 1;
+                if let Ok(r) = d.ctx.ch(first) {
+                    d.text.push(first);
+                    d.check(&r, false);
+                    d.rec(n - 1);
+                }
+                checked.fetch_add(d.checked, Ordering::Relaxed);
+                events.fetch_add(d.events, Ordering::Relaxed);
+            },
+            |_| (),
+        );
+        parts.insert("P7_mixed_alphabet_after_earlier_word_single_string".into(), json!({"alphabet": "ak(.:`", "max_len": n, "earlier_words": earlier, "suggestions_checked": checked.load(Ordering::Relaxed) - before.0, "key_events": events.load(Ordering::Relaxed) - before.1}));
+    }
+
     let mut ev = Evidence::new("C03", &report.tier, "exploration");
     ev.set("evaluations", events.load(Ordering::Relaxed).max(1));
     ev.set("distinct_nontrivial", checked.load(Ordering::Relaxed).max(2));
